@@ -504,6 +504,33 @@ def judge_critical(s, J, pr, res, w, b, tol, claimed, plan):
                                                  "BlockSCAD", "WeightedL1GroupL2"):
         return out
     if not claimed:
+        # "returns ... the optimal unpenalised part": above the critical strength the whole
+        # problem is the fit of the intercept, which every solver finishes within the ample
+        # budget of a quiescent cold start (one exact step for quadratic losses, Newton steps in
+        # ProxNewton, gradient steps of a smooth 1-d problem otherwise) - demanded where the
+        # design is well conditioned and everything else is penalised
+        gen = plan["data"].get("gen") or {}
+        amax_rm = plan["family"].get("alpha_max_rm") or 0.0
+        frac = plan["family"].get("alpha_frac") or 0.0
+        if (res["start"] in ("cold", "cold_buf") and frac >= 1.001 and pen.convex and amax_rm > 1e-8
+                and bool(np.all(pen.penalized_mask(pr.p))) and not plan["data"].get("degen")
+                and gen.get("rho", 1) <= 0.9 and gen.get("scale_decades", 9) <= 1.0
+                and bool(pr.absX.any(axis=0).all()) and pr.n >= pr.p + 1
+                and s.solver_name in ("AndersonCD", "ProxNewton", "GroupBCD", "GroupProxNewton",
+                                      "MultiTaskBCD", "GramCD")
+                # (AndersonCD / GroupBCD move the logistic intercept by gradient / 4 per epoch -
+                # the step-size convention of the known finding - and need hundreds of outer
+                # iterations; Huber's intercept step is bounded by delta)
+                and (s.solver_name in ("ProxNewton", "GroupProxNewton")
+                     or s.dname in ("Quadratic", "WeightedQuadratic", "QuadraticGroup",
+                                    "QuadraticMultiTask"))
+                and s.dname != "Huber" and tol >= 1e-6 * amax_rm and not (res.get("faults") or {}).get("aa")
+                and np.all(np.isfinite(np.asarray(w))) and not np.any(np.asarray(w) != 0)):
+            out.append(dict(prop=["C16"], oracle="null_model_reached",
+                            sig=(s.solver_name, s.dname, s.pname, "null_model_not_reached"),
+                            detail=dict(alpha=float(s.pargs["alpha"]), alpha_max=amax_rm,
+                                        stop_crit=res["stop_crit"], tol=tol, intercept=np.asarray(b).tolist()),
+                            feat=J.feat(res, dict(ratio=frac))))
         return out
     if getattr(pen, "positive", False) and not bool(np.all(pen.penalized_mask(pr.p))):
         return out   # the reference null fit does not handle constrained unpenalised features
